@@ -22,7 +22,8 @@ Record case := {
   c_inproc_out : oobs;
   c_inproc_best : list fl;
   c_fault : fault;
-  c_raise_at : option nat;          (* wrapper fault raise:j *)
+  c_raise : option (nat * string);  (* wrapper fault raise:j:kind -- the optimizer's j-th callback raises inside the child
+                                       an exception whose str() is the given message (also the empty one) *)
   c_ext : list exchange;            (* external: callbacks in the parent, in order *)
   c_ext_out : oobs;
   c_ext_best : list fl;
@@ -36,7 +37,9 @@ Record case := {
   c_wall_ms : Z
 }.
 
-Definition injected_msg : string := "verif: injected optimizer failure".
+(* the run must end within _PROCESS_TIMEOUT + this many seconds (the machine may be heavily loaded; a hang is
+   unbounded, so any bound shows it) *)
+Definition wall_slack : Q := 90.
 
 (* ---- equality on observations (exact) ---------------------------------------------------------- *)
 Definition tensor_eqb (a b : tensor) : bool :=
@@ -124,6 +127,7 @@ Definition matches_ext (m : outcome) (o : oobs) : bool :=
   | Error (ExUser cls), ORaise cls' => String.eqb cls cls'
   | Error (ExOptimizer _), ORaise cls => String.eqb cls "RuntimeError"
   | Error (ExDeath _), ORaise _ => true                (* any error; messages/classes of OS errors are not compared *)
+  | Error ExPipe, ORaise _ => true                     (* OSError (ENXIO at the first open) / BrokenPipeError *)
   | _, _ => false
   end.
 Definition same_outcome (a b : oobs) : bool :=
@@ -134,13 +138,13 @@ Definition same_outcome (a b : oobs) : bool :=
   end.
 
 Definition faulted (c : case) : bool :=
-  match c_fault c, c_raise_at c with NoFault, None => false | _, _ => true end.
+  match c_fault c, c_raise c with NoFault, None => false | _, _ => true end.
 
 (* ---- model vs. observation ---------------------------------------------------------------------- *)
 Definition model_agrees (c : case) : bool :=
   let tbl := c_inproc c in
   let s0 := script_strategy (script_of tbl (c_end c)) in
-  let s := match c_raise_at c with Some j => with_raise j injected_msg s0 | None => s0 end in
+  let s := match c_raise c with Some (j, msg) => with_raise j msg s0 | None => s0 end in
   let ev := table_evaluator tbl in
   let fuel := (List.length tbl + 4)%nat in
   match inproc fuel ev (s0 (c_cfg c) (c_x0 c)) [] [] with
@@ -154,7 +158,7 @@ Definition model_agrees (c : case) : bool :=
       matches_ext (step_outcome finished_code r) (c_ext_out c) &&
       list_eqb wev_same (p_wire (s_par st)) (c_pwire c) &&
       Bool.eqb (running (s_child st)) (c_child_alive c) &&
-      Bool.eqb (match r with Raise (ExDeath _) => true | _ => false end) (c_fault_fired c)
+      Bool.eqb (match r with Raise (ExDeath _) | Raise ExPipe => true | _ => false end) (c_fault_fired c)
   | None => false
   end.
 
@@ -178,7 +182,7 @@ Definition property_holds (c : case) : bool :=
    list_eqb exchange_eqb (c_ext c) (firstn (List.length (c_ext c)) (c_inproc c))) &&
   (* (b) never hangs *)
   match c_ext_out c with OHang => false | _ => true end &&
-  Qleb (inject_Z (c_wall_ms c) / 1000) (process_timeout + 20) &&
+  Qleb (inject_Z (c_wall_ms c) / 1000) (process_timeout + wall_slack) &&
   (* (c) no optimizer process, no FIFO left *)
   negb (c_child_alive c) && Nat.eqb (c_leftovers c) 0.
 
